@@ -44,6 +44,11 @@
 #if defined ECHSE_VERIF
 /* ghost cells read by the verification harnesses only (/verif) */
 extern int verif_diff_days, verif_diff_ms;
+extern int verif_add_dd0, verif_add_msd0, verif_add_dd;
+/* spec vocabulary for the in-place loop contracts (from /verif/specs) */
+# include "spec_cal.h"
+/* target day number of the month walks in echs_instant_add */
+# define VERIF_ADD_T	(S_DAYNO(bas.y, bas.m, 1) + (int)bas.d - 1 + dd)
 #endif	/* ECHSE_VERIF */
 
 static const unsigned int doy[] = {
@@ -219,6 +224,10 @@ echs_instant_add(echs_instant_t bas, echs_idiff_t add)
 	int msd = add.d % (int)MSECS_PER_DAY;
 	int car, cdr;
 
+#if defined ECHSE_VERIF
+	/* ghost export: quotient and remainder as computed, and the day count */
+	verif_add_dd0 = verif_add_dd = dd, verif_add_msd0 = msd;
+#endif	/* ECHSE_VERIF */
 	if (UNLIKELY(echs_instant_all_day_p(bas))) {
 		/* just fix up the day, dom and year portion */
 		goto fixup_d;
@@ -268,6 +277,9 @@ fixup_S:
 	if (UNLIKELY(msd)) {
 		dd += msd;
 	}
+#if defined ECHSE_VERIF
+	verif_add_dd = dd;
+#endif	/* ECHSE_VERIF */
 	if (dd) {
 		int y;
 		int m;
@@ -284,7 +296,15 @@ fixup_S:
 		} else if (d < 1) {
 			int mdays;
 
-			do {
+			do
+#if defined ECHSE_VERIF
+			__CPROVER_assigns(y, m, d, mdays)
+			__CPROVER_loop_invariant(
+				1 <= m && m <= 12 && 1600 <= y && y <= (int)bas.y &&
+				-100000 < d && d < 1 && S_DAYNO(y, m, 1) + d - 1 == VERIF_ADD_T)
+			__CPROVER_decreases(12 * y + m)
+#endif	/* ECHSE_VERIF */
+			{
 				if (UNLIKELY(--m < 1)) {
 					--y;
 					m = 12;
@@ -296,7 +316,15 @@ fixup_S:
 		} else {
 			int mdays;
 
-			while (d > (mdays = __get_mdays(y, m))) {
+			while (d > (mdays = __get_mdays(y, m)))
+#if defined ECHSE_VERIF
+			__CPROVER_assigns(y, m, d, mdays)
+			__CPROVER_loop_invariant(
+				1 <= m && m <= 12 && (int)bas.y <= y && y <= 2400 &&
+				1 <= d && d < 100000 && S_DAYNO(y, m, 1) + d - 1 == VERIF_ADD_T)
+			__CPROVER_decreases(d)
+#endif	/* ECHSE_VERIF */
+			{
 				d -= mdays;
 				if (UNLIKELY(++m > 12)) {
 					++y;
